@@ -57,7 +57,7 @@ class C12(core.Check):
     level = "exploration"
     quick_runs = 420
     thorough_runs = 200000
-    quick_budget_s = 45.0
+    quick_budget_s = 80.0
     thorough_budget_s = 1700.0
     chunk = 2
     run_timeout_s = 150.0
@@ -164,6 +164,9 @@ class C12(core.Check):
                         files[f"/simfs/w/chain/l{j}.map"] = f"INCLUDE \"chain/l{j + 1}.map\"\n" if j < 6 else layer
                     entry = r.choice([0, 0, 1, 2, 3, 4])
                     text = f"MAP\n  NAME \"m{entry}\"\n  INCLUDE \"chain/l{entry}.map\"\nEND\n"
+            if r.random() < 0.3:
+                # the trailers mappyfile itself writes with end_comment=True ("END # LAYER"): comments that belong to no keyword
+                text = re.sub(r"(?m)^([ \t]*END)([ \t]*\r?)$", lambda m_: m_.group(1) + (" # end" if r.random() < 0.6 else "") + m_.group(2), text)
             if allow_broken and r.random() < 0.2:
                 text = workload.break_text(r, text)
             docs[did] = text
